@@ -329,7 +329,12 @@ pub fn run_config(report: &Report, prop: &'static str, pre: Pre, r: Reader, w: W
                 let got = finalize(&world.b.fx, &world.b.thread, &world.answer.lock().unwrap().clone().unwrap_or(Value::Null));
                 let g = canon(&got);
                 oc.insert(if g == before { 0 } else if g == after { 1 } else { 2 });
-                if g != before && g != after {
+                // compaction_status_v1 aggregates several reads (cut points, latest checkpoint, job
+                // frames): a status that mixes the two states is not judged - C04's quantifier has no
+                // concurrent appends; what the race may do to the caches is judged below
+                if g != before && g != after && r == Reader::Status {
+                    report.count("race_status_answers_mixing_both_states_not_judged", 1);
+                } else if g != before && g != after {
                     report.violation(
                         &format!("{prop}:race:answer_of_neither_order:{r:?}|{w:?}:{pre:?}"),
                         case(),
